@@ -33,11 +33,12 @@ theorem decoders_length : decoders.length = 7 := by
     trailing garbage on a line, parsing ends with a result or ValueError, never by exhausting the
     model's fuel; and the number of loop iterations is linear in the input length. -/
 theorem p1_parse_terminates (data : List Nat) : P1Parse.parseContent data ≠ .error .overflowError := by
-  sorry
+  exact DecTotal.p1_parse_ne_overflow data
 
 theorem p1_parse_linear (data : List Nat) (items : List P1Parse.DataSet) (iters : Nat)
     (h : P1Parse.parseContent data = .ok (items, iters)) : iters ≤ 2 * data.length + 2 := by
-  sorry
+  have := DecTotal.p1_parse_cost data items iters h
+  omega
 
 /-- **C15 (GreedyRange terminates).** Giving the greedy loops more fuel than `input length + 1` never
     changes the result, i.e. the fuel is never what stops them: every iteration consumes input. -/
